@@ -208,10 +208,14 @@ func diffFields(want, got map[string]string) []string {
 }
 
 type replayCase struct {
-	Op    string       `json:"op"` // single | stream
+	Op    string       `json:"op"` // single | stream | history
 	Fam   string       `json:"fam,omitempty"`
 	Items []replayItem `json:"items"`
 	Rest  string       `json:"rest,omitempty"`
+	// op = history: encodings produced one after another, decoded in Order
+	History []histEntry `json:"history,omitempty"`
+	Order   []int       `json:"order,omitempty"`
+	Mutate  bool        `json:"mutate_originals,omitempty"`
 }
 type replayItem struct {
 	Type string `json:"type"`
@@ -677,7 +681,7 @@ func main() {
 	c := &ctx{env: env, rep: rep, sampled: map[string]int{}}
 	rep.Rule = "objects of every step type (9 registered, 2 unregistered), 3 service types, TxRecord and 3 profile packs with reflection-filled fields " +
 		"(edges of every width class, empty/nil/long strings, blobs and arrays, attribute maps); step streams of 1..200 (thorough 2000) steps; " +
-		"all 2^5 combinations of TxRecord's optional sections; a case is its canonical field text — two cases are distinct when any field differs; all generated cases are non-trivial"
+		"all 2^5 combinations of TxRecord's optional sections; histories of k in {2,3,5} live encodings (step profiles, packs via SetProfile, TxRecord, services) produced one after another with the originals changed in between, decoded in a different order, inputs overwritten afterwards (thorough: also produced from several goroutines); a case is its canonical field text — two cases are distinct when any field differs; all generated cases are non-trivial"
 
 	if env.Replay != "" {
 		runReplay(c, env.Replay)
